@@ -103,6 +103,13 @@ type Ctx struct {
 // Progress is read by the worker watchdog.
 func (c *Ctx) Progress() int64 { return atomic.LoadInt64(&c.progress) }
 
+// Beat tells the watchdog that the running case is alive although it has not completed: a case that waits for a child
+// process which runs under resource limits of its own (processor time, address space) calls it while it waits, so
+// that the verdict about the child depends on those limits and not on how busy the machine is.
+func Beat() { atomic.AddInt64(&beats, 1) }
+
+var beats int64
+
 const stateHashLen = 8
 
 func NewCtx(prop, tier string, shard, nshards int, journalPath string, budget time.Duration) *Ctx {
